@@ -30,6 +30,25 @@ fn iso2(t: &Value) -> Iso2 {
 
 pub fn exec(rec: &Value, _st: &mut State) -> Value {
     let op = gs(rec, "op");
+    if op == "livelock" {
+        // direct call of the public refinement helper on a section whose quarter ray cannot be spanned (see Stations.tla)
+        use engeom::airfoil::helpers::{inscribed_from_spanning_ray, refine_stations, OrientedCircles};
+        use parry2d_f64::query::Ray;
+        let pts: Vec<Point2> = gvvi(rec, "pts").iter().map(|p| Point2::new(p[0] as f64 / 10.0, p[1] as f64 / 10.0)).collect();
+        let section = Curve2::from_points(&pts, 1e-8, true).expect("section");
+        let xl = gi(rec, "xl") as f64 / 10.0;
+        let xn = gi(rec, "xn") as f64 / 10.0;
+        let ray_l = section.try_create_spanning_ray(&Ray::new(Point2::new(xl, 0.3), Vector2::new(0.0, 1.0)));
+        let ray_n = section.try_create_spanning_ray(&Ray::new(Point2::new(xn, 0.3), Vector2::new(0.0, 1.0)));
+        let (ray_l, ray_n) = match (ray_l, ray_n) { (Some(a), Some(b)) => (a, b), _ => return json!({"setup": false}) };
+        let l = inscribed_from_spanning_ray(&section, &ray_l, 1e-6);
+        let n = inscribed_from_spanning_ray(&section, &ray_n, 1e-6);
+        let mut dest = OrientedCircles::create(false);
+        dest.push(l);
+        let mut stack = vec![n];
+        refine_stations(&section, &mut dest, &mut stack, 1e-4, 1e-6);
+        return json!({"setup": true, "returned": true, "n": dest.take_circles().len()});
+    }
     if op != "analyze" { return json!({"unknown_op": true}); }
     let unit = gi(rec, "unit") as f64;           // integer coordinates per length unit
     let chord = gi(rec, "chord") as f64 / unit;
@@ -59,7 +78,7 @@ pub fn exec(rec: &Value, _st: &mut State) -> Value {
         let face = if gs(&rec["face"], "kind") == "detect" { FaceOrient::Detect } else {
             let d = gvi(&rec["face"], "d"); FaceOrient::UpperDir(t * Vector2::new(d[0] as f64, d[1] as f64)) };
         let res = AirfoilGeometry::try_analyze(&section, tol, orient, edge(&rec["le"], tol), edge(&rec["te"], tol), face);
-        let g = match res { Ok(g) => g, Err(_) => { vars.push(json!({"ok": false, "stage": "analyze"})); continue } };
+        let g = match res { Ok(g) => g, Err(e) => { vars.push(json!({"ok": false, "stage": "analyze", "err": e.to_string()})); continue } };
         // everything is reported in the base frame (un-moved by T^-1) and in micro-chords
         let mut stations = vec![];
         let n = g.stations.len();
@@ -86,8 +105,11 @@ pub fn exec(rec: &Value, _st: &mut State) -> Value {
                 q.q((gs_.point() - c).norm(), qc), q.q(r - rexp, qc), q.q(la, qc)]));
         }
         let edge_out = |q: &mut Q, e: &Option<engeom::airfoil::AirfoilEdge>| match e {
-            None => json!({"some": false, "p": [0, 0], "dsec": 0}),
-            Some(e) => { let p = ti * e.point; json!({"some": true, "p": [q.q(p.x, qc), q.q(p.y, qc)], "dsec": q.q(base_curve.dist_to_point(&p), qc)}) }
+            None => json!({"some": false, "p": [0, 0], "dsec": 0, "geom": "none", "fin": true}),
+            Some(e) => { let p = ti * e.point; let mut qe = Q::new();
+                let g = match e.geometry { engeom::airfoil::EdgeGeometry::Open => "open", engeom::airfoil::EdgeGeometry::Closed => "closed", _ => "arc" };
+                let o = json!({"some": true, "p": [qe.q(p.x, qc), qe.q(p.y, qc)], "dsec": qe.q(base_curve.dist_to_point(&p), qc), "geom": g, "fin": qe.finite});
+                let _ = q; o }
         };
         let le = edge_out(&mut q, &g.leading_edge);
         let te = edge_out(&mut q, &g.trailing_edge);
